@@ -110,3 +110,78 @@ func Harness_C07_History() {
 	verifCheckReads(db, m, "settled")
 	verif.Reached()
 }
+
+// Harness_C07_SwapWindow: the same history check with the background flush and compaction
+// tasks interleaved with each other and with readers at the swap windows of dkv.DB (reader
+// between its sstable snapshot and its memtable read; flush before it swaps its table in;
+// compaction before it applies its change set). At each window the arriving goroutine either
+// passes or waits until another goroutine has passed a window (hook-wait exploration). The
+// memtable seals after every write and compaction triggers at two level-0 tables, so that K
+// writes produce overlapping flushes and compactions.
+func Harness_C07_SwapWindow() {
+	verif.FixedRand(3, 1, 4, 1, 5, 9, 2, 6)
+	verif.Abstract("bloom.Filter")
+	verif.ScheduleMode(1, 0)
+	fs := storage.NewMemoryFilesystem()
+	db := Open(DBOptions{FileSystem: fs, MemTableSize: 10, TargetFileSize: 64, L0TableNumCompactionTrigger: 2}, nil)
+	m := newVerifModel()
+	k := verif.Param("K", 3)
+	for step := 0; step < k; step++ {
+		verifSwapStep(db, m)
+		if step < k-verif.Param("R", 1) {
+			continue
+		}
+		// one reader after each of the last R steps: a Get or a scan of one key
+		i := 2 * verif.Choose("read-key", 2)
+		if verif.Choose("read-is-scan", 2) == 1 {
+			var scanErr error
+			n := 0
+			for e := range db.ScanPrefix(verifKeys[i], &scanErr) {
+				if bytes.Equal(e.Key(), verifKeys[i]) {
+					n++
+					verif.Assert(m.live[i], "window-scan-yields-only-live-keys")
+					if m.live[i] {
+						verif.Assert(bytes.Equal(e.Value(), m.val[i]), "window-scan-returns-latest-value")
+					}
+				}
+			}
+			verif.Assert(scanErr == nil, "window-scan-no-error")
+			if m.live[i] {
+				verif.Assert(n == 1, "window-scan-finds-live-key")
+			}
+		} else {
+			e, err := db.Get(verifKeys[i])
+			if m.live[i] {
+				verif.Assert(err == nil && e != nil && !e.IsDelete(), "window-get-finds-live-key")
+				if err == nil && e != nil && !e.IsDelete() {
+					verif.Assert(bytes.Equal(e.Value(), m.val[i]), "window-get-returns-latest-value")
+				}
+			} else {
+				verif.Assert(err == kv.ErrNotFound || (err == nil && e.IsDelete()), "window-get-reports-absent-or-deleted")
+			}
+		}
+	}
+	verif.Assert(db.WaitOnTasks() == nil, "background-tasks-succeed")
+	verif.ScheduleMode(0, 0)
+	verifCheckReads(db, m, "settled")
+	verif.Reached()
+}
+
+// verifSwapStep: put a / put b / delete a / background work completes.
+func verifSwapStep(db *DB, m *verifModel) {
+	switch verif.Choose("op", 4) {
+	case 0:
+		v := verif.Bytes("v", 1)
+		db.Put(verifKeys[0], v)
+		m.val[0], m.live[0] = v, true
+	case 1:
+		v := verif.Bytes("v", 1)
+		db.Put(verifKeys[2], v)
+		m.val[2], m.live[2] = v, true
+	case 2:
+		db.Delete(verifKeys[0])
+		m.val[0], m.live[0] = nil, false
+	default:
+		verif.Assert(db.WaitOnTasks() == nil, "background-tasks-succeed")
+	}
+}
